@@ -197,6 +197,21 @@ func (g *Grammar) ExprString(e *syntax.Expr) string {
 			return "%empty"
 		}
 		return buf.String()
+	case syntax.Choice:
+		// Rules of extracted mid-rule actions keep a choice of (empty) alternatives.
+		var alts []string
+		for _, sub := range e.Sub {
+			if inner := g.ExprString(sub); inner != "" && inner != "%empty" {
+				alts = append(alts, inner)
+			}
+		}
+		switch len(alts) {
+		case 0:
+			return "%empty"
+		case 1:
+			return alts[0]
+		}
+		return "(" + strings.Join(alts, " | ") + ")"
 	case syntax.Reference:
 		return e.String()
 	case syntax.StateMarker:
